@@ -380,8 +380,11 @@ impl<W: Write> HashedWrite<W> {
 
 impl<W: Write> Write for HashedWrite<W> {
     fn write(&mut self, buf: &[u8]) -> std::io::Result<usize> {
-        self.hasher.update(buf);
-        self.writer.write(buf)
+        // The inner writer may accept only part of the buffer; hash exactly what it accepted,
+        // as the caller (e.g. write_all) will offer the rest again.
+        let n = self.writer.write(buf)?;
+        self.hasher.update(&buf[..n]);
+        Ok(n)
     }
 
     fn flush(&mut self) -> std::io::Result<()> {
